@@ -62,7 +62,7 @@ def handle (j : Json) : Except String Json := do
   let op ← jstr j "op"
   let strict ← jbool j "strict"
   let target := toStr (← jstr j "target")
-  let env : Env := ⟨← jnat j "dflt", ← jnat j "dgid"⟩
+  let env : Env := ⟨← jnat j "dflt", ← jnat j "dgid", ← jnat j "namemax"⟩
   let old ← optFile j "old"
   match op with
   | "run" =>
